@@ -1380,24 +1380,30 @@ MANIFEST_ENTRY = {
              'L*(x - T x) end to end (instantiated with the mask-and-back pair, coefficient read off the source); pad/crop with the offsets '
              'translated from pad2d / crop_center; strided scatter/gather; Fourier filtering against filtering with conj(H) (only contract: ifft = c fft^H, '
              'c real) and its real-part corollary; the DM.render chain without rotation / resampling in the pure padding and pure cropping '
-             'geometries; the modal sum with real modes (tensordot axes translated); the SpatialGradient2D statements as translated (every axis '
+             'geometries; fourier_resample against fourier_resample_backprop (fourier_resample_adjoint: every input / output size and zoom, any matrix-DFT bases, '
+             'ifft = fft^H / size, with the roll amounts and BOTH scale factors translated from the source; circular shifts are adjoint to the opposite shift, '
+             'every parity); the modal sum with real modes (tensordot axes translated); the SpatialGradient2D statements as translated (every axis '
              'length) with row/column liftings.  Non-linear nodes: intensity (exact quadratic); mean-square error RELATIVE to the translated '
              'cost/gradient pair (any normalisation convention); phase node composed (HasDerivAt of phi -> Re<gbar, A exp(i k phi)> equals the '
              'translated backprop, wavenumber translated from both sides); softmax VJP, its batch lifting, shift invariance, Gumbel-softmax '
              '(1/tau), discrete encoder over softmax AND over Gumbel-softmax; tanh / arctan / softplus / sigmoid; negative log-likelihood; '
              'bias-and-gain-invariant error in full (envelope argument made rigorous) -- the last seven through the recognised closed forms '
              '(gen_* pins: a consistent change of convention in both forward and backward of those is reported as a tie failure).  '
+             'Masked cost functions for ALL masks: scatter-into-zeros is the adjoint of x[mask] (mask_compress_scatter_adjoint), hence scatter(grad(x[mask])) '
+             'is the gradient of cost(x[mask]) for any differentiable cost (masked_cost_grad), instantiated for mse / bgie / nll -- tied to the source by the '
+             'recognised compress / scatter SHAPE of the masked branches (flag), not by a translated term.  '
              'TRANSLATED every run: Q / shift / shape wiring of focus/unfocus_fixed_sampling(_backprop) and to_fpm_and_back(_backprop) by symbolic '
              'execution (backprop legs equal the forward legs up to ring normalisation, for all arguments; tuple-valued samples, method=mdft, '
              'return_more=False, ndarray mask -- the other argument forms are exercised numerically only), SpatialGradient2D slice statements, '
              'cost / activation / softmax / encoder / Wavefront-node closed forms, pad/crop offsets, tensordot axes, the ordered operation lists of '
-             'DM.render and DM.render_backprop (each step the adjoint of the mirrored one), live-attribute obligation (no backprop reads state its '
+             'DM.render and DM.render_backprop (each step the adjoint of the mirrored one), the operation chains / roll amounts / scale factors / matrix-DFT '
+             'geometry of fourier_resample and fourier_resample_backprop (gen_resample_chain, gen_resample_shifts, gen_resample_scale), live-attribute obligation (no backprop reads state its '
              'forward does not).  Recognised-shape FLAGS only (Bool, no Lean content): call wiring (*Wired), masked-cost branches, broadcasting '
              'over the levels axis, forward shapes of softmax / Gumbel / encoder / intensity.  COMPARED on every case: the property\'s own '
              'predicate on the real code (dot product at 1e-10; Richardson differences at 1e-6 plus the float64 resolution floor) and the real '
              'backprop against the Lean model given the forward\'s OWN ingredients (cached bases, DM transfer function / lattice / offsets).  '
-             'Exercised numerically only: masked costs, int / list / scalar argument forms, return_more=True (all three arrays and the labels of the '
-             'returned Wavefronts), Wavefront / RichData container inputs, method=czt, upsample != 1 (adjoint resampler), re-assigned node '
+             'Exercised numerically only: int / list / scalar argument forms, return_more=True (all three arrays and the labels of the '
+             'returned Wavefronts), Wavefront / RichData container inputs, method=czt, the zoom spellings of the resampler (float / int / NumPy scalar / tuple / list, identity at 1; called directly and through DM upsample != 1), re-assigned node '
              'parameters and interleaved forwards, complex upstream gradients.  DM rotation: the companion is the inverse warp, NOT an exact adjoint '
              '(interpolation + tilt Jacobian); tested at 5e-2 on smooth upstream gradients, no theorem.  Geometries on which DM.__init__ / render '
              'themselves fail (non-square Nact, pad one axis and crop the other) are recorded, not judged.  The model-level theorems '
